@@ -33,7 +33,7 @@ CONSTANTS
   MaxLevel,   \* bound on behaviour length (safety net)
   Shape,      \* "" or "chain": restricts the trees that are built (checked on the successor state)
   MaxEdits,   \* in-place edits of the built model (0: none); every state after an edit is a case too
-  EditKinds,  \* subset of {"card","addchild","rmkid","abs","attrval","rmctc","ctcop","rename"}
+  EditKinds,  \* subset of {"card","addchild","rmkid","replkid","abs","attrval","rmctc","ctcop","rename"}
   Walks,      \* 0: exhaustive exploration; n > 0: n seeded random walks ("random larger ones")
   Seed        \* seed of the walks (VERIF_SEED)
 
@@ -130,6 +130,10 @@ EditChoices ==
                                  /\ (model.rels[j].hi = Star \/ model.rels[j].hi <= NKids(model.rels[j]) - 1)}} :
                     j \in DOMAIN model.rels}
         ELSE {})
+  \cup (IF "replkid" \in EditKinds
+        THEN UNION {{[k |-> "replkid", j |-> j, i |-> i, x |-> "", lo |-> 0, hi |-> 0] :
+                        i \in {i \in DOMAIN model.rels[j].kids : IsLeaf(model, model.rels[j].kids[i])}} : j \in DOMAIN model.rels}
+        ELSE {})
   \cup (IF "abs" \in EditKinds
         THEN {[k |-> "abs", j |-> 0, i |-> i, x |-> "", lo |-> 0, hi |-> 0] : i \in 1..NF} ELSE {})
   \cup (IF "attrval" \in EditKinds
@@ -159,6 +163,9 @@ EditBy(d) ==
        [] d.k = "rmkid" ->
             /\ model' = RemoveKidF(model, d.j, d.i)
             /\ hist'  = Append(hist, [a |-> "EditRemoveKid", o |-> Ref(d.j).o, ri |-> Ref(d.j).ri, n |-> model.rels[d.j].kids[d.i]])
+       [] d.k = "replkid" ->
+            /\ model' = ReplaceKidF(model, d.j, d.i)
+            /\ hist'  = Append(hist, [a |-> "EditReplaceKid", o |-> Ref(d.j).o, ri |-> Ref(d.j).ri, n |-> model.rels[d.j].kids[d.i]])
        [] d.k = "abs" ->
             /\ model' = ToggleAbstractF(model, model.feats[d.i].name)
             /\ hist'  = Append(hist, [a |-> "EditAbstract", f |-> model.feats[d.i].name])
